@@ -14,6 +14,7 @@ import (
 
 	"grog/internal/config"
 	"grog/internal/console"
+	"grog/internal/verifhook"
 )
 
 type StatusFunc func(StatusUpdate)
@@ -110,6 +111,7 @@ func (twp *TaskWorkerPool[T]) worker(ctx context.Context, workerId int) {
 			if !ok {
 				return
 			}
+			verifhook.Emit("slot.acquire", "w", workerId, "job", j.id)
 
 			twp.setTaskState(workerId, Status(fmt.Sprintf("Starting task %d on worker %d", j.id+1, workerId)), zapcore.DebugLevel)
 			res, err := j.task(func(status StatusUpdate) {
@@ -120,6 +122,7 @@ func (twp *TaskWorkerPool[T]) worker(ctx context.Context, workerId int) {
 				twp.setTaskState(workerId, StatusUpdate{Status: taskStatus, Progress: status.Progress}, zapcore.InfoLevel)
 			})
 
+			verifhook.Emit("slot.release", "w", workerId, "job", j.id)
 			if j.result != nil {
 				j.result <- TaskResult[T]{Return: res, Error: err}
 				close(j.result)
@@ -197,6 +200,7 @@ func (twp *TaskWorkerPool[T]) NumWorkers() int {
 func (twp *TaskWorkerPool[T]) Run(task TaskFunc[T]) (T, error) {
 	var zero T
 	if twp.closed.Load() {
+		verifhook.Emit("pool.reject")
 		return zero, fmt.Errorf("worker pool is closed")
 	}
 
@@ -219,6 +223,7 @@ func (twp *TaskWorkerPool[T]) Run(task TaskFunc[T]) (T, error) {
 func (twp *TaskWorkerPool[T]) Shutdown() {
 	twp.shutdownOnce.Do(func() {
 		twp.closed.Store(true)
+		verifhook.Emit("pool.shutdown")
 		close(twp.jobCh)
 	})
 }
